@@ -12,6 +12,7 @@ from c06 import CLASS_FILE, run_cli, latest_json
 import c20mcp
 import c20fail
 import c20lists
+import c20twins
 
 # set to True once the report is deterministic (C05 repairs): then sections are compared exactly, order included
 STRICT_ORDER = True
@@ -227,8 +228,13 @@ def main(tier):
     # ---------- (d') all seven MCP tools on the real server binary vs the command line (harness/c20mcp.py) ----------
     if only:
         files = []
-    if ck.go_ok and only != "race":
+    if ck.go_ok and only not in ("race", "twins"):
         stats.update(c20mcp.run(ck, root, thorough))
+    # ---------- (b') twin paths: files whose paths are equal under case folding / Unicode normalisation / trailing dots / `./` spellings (harness/c20twins.py) ----------
+    if only in ("", "twins"):
+        if ck.go_ok and only:
+            c20mcp.build_server()
+        stats["twin_paths"] = c20twins.run(ck, root, thorough)
     # ---------- (c) data races: -race build of the real binary ----------
     race_bin = os.path.join(lib.BIN, "pyscn-race")
     rc, err = 1, "skipped (VERIF_C20_ONLY)"
@@ -279,9 +285,10 @@ def main(tier):
         "evaluations": stats["section_comparisons"] + stats["per_file_comparisons"] + stats["mcp_hook_comparisons"] + stats["race_runs"]
                        + sum(stats.get("mcp_comparisons", {}).values()) + sum(stats.get("mcp_error_cases", {}).values())
                        + sum(stats.get("mcp_history", {}).get("calls", {}).values())
-                       + stats.get("mcp_list_keys", {}).get("calls", 0) + stats.get("mcp_list_keys", {}).get("inprocess_calls", 0),
+                       + stats.get("mcp_list_keys", {}).get("calls", 0) + stats.get("mcp_list_keys", {}).get("inprocess_calls", 0)
+                       + stats.get("twin_paths", {}).get("per_file_comparisons", 0) + stats.get("twin_paths", {}).get("mcp_calls", 0),
         "distinct_nontrivial": stats["subsets"] + stats["section_comparisons"] + sum(stats.get("mcp_nonempty_findings", {}).values())
-                               + stats.get("failing", {}).get("multi_failure_scenarios", 0),
+                               + stats.get("failing", {}).get("multi_failure_scenarios", 0) + stats.get("twin_paths", {}).get("combined_runs", 0),
         "rule": "generated project (generated control-flow modules, classes, an import cycle, a duplicated class file): combined report vs each "
                 "--select run per section; per-file rows of complexity/dead code/CBO/LCOM for every file alone, reversed order and random subsets "
                 "vs the whole project; all seven MCP tools (analyze_code, check_complexity, detect_clones, check_coupling, find_dead_code, "
@@ -316,6 +323,17 @@ def main(tier):
                 "handler calls inside ONE pyscn-verif process (op mcp); every answer must equal the command line run for that path alone and every answer for B "
                 "must equal the fresh-server answer of the same call; "
                 "MCP analyze_code through the in-process hook; "
+                "TWIN PATHS (harness/c20twins.py): a project whose files have paths that are EQUAL UNDER A NORMALISATION but name different files, as far as the "
+                "file system of the work directory keeps them apart (probed; input_distribution.twin_paths.file_system, a family it folds is skipped with a note): "
+                "case twins in one directory (Shapes.py / shapes.py / SHAPES.py, UTIL.py / util.py), case-twin directories (Pkg/mod.py / pkg/mod.py), twin directory "
+                "AND twin file name (pkg/Leaf.py / Pkg/leaf.py), a twin directory below a common one (core/Sub / core/sub), Unicode NFC / NFD spellings of one name, "
+                "non-ASCII case twins, a directory name with a trailing dot / trailing blank, and a file without twin; every file has its own source whose complexity, "
+                "dead-code, clone, CBO and LCOM findings differ from those of every other file (measured: sections_distinct_between_all_files, else a broken tie; "
+                "which twin is the bigger one is drawn from the seed); runs: the directory as `.` and by absolute path, all files as explicit targets (reversed, "
+                "absolute; shuffled with the spellings ./x, x//y, x/./y, d/../d/y in rotation), the sub-directories as separate targets, the twins of each family "
+                "alone in both orders, a file named twice in two spellings next to its twin: each file's rows of each of the five sections equal the rows of the "
+                "file ANALYSED ALONE, no rows for other files, summary.total_files = number of different files; the MCP tools (five single-analysis tools, "
+                "analyze_code, get_health_score; full / detailed / summary) on the project and on each twin directory vs the command line; "
                 "-race build of the CLI under several GOMAXPROCS on successful runs; the -race build on L1/L2/L3/Lp with all analyses selected (each analysis "
                 "goroutine loads the configuration file) under GOMAXPROCS 1/2/4/16 (thorough: three repetitions): no DATA RACE report, exit status not 66; FAILING analyses (harness/c20fail.py): every subset of the failure "
                 "modes the command line offers (--min-complexity < 0, --clone-threshold outside [0,1], --min-cbo < 0, [lcom] thresholds the analysis "
@@ -336,6 +354,8 @@ def main(tier):
                    "project B (measured per tool: input_distribution.mcp_list_keys.configurations_with_other_findings_than_B) or is written by two analysis goroutines under the race detector",
                    "call histories are sampled (all ordered pairs of targets per tool, all ordered pairs of tools), not all sequences; the calls of a history are sequential (concurrent calls on one server are not compared)",
                    "MCP vs CLI equality is decided on projected findings (rows, pairs, scores), not on the presentation (field names, order, wording)",
+                   "twin paths: only the normalisations the file system of the work directory does NOT apply can be exercised (on a case-insensitive file system the case families are skipped, see notes); "
+                   "the families are case, Unicode NFC/NFD, trailing dot / blank of a directory name and path spellings, not every conceivable normalisation",
                    "models Service/Pipeline.v, Service/Isolation.v, Cli/Frontends.v"]
     ck.finish(assumptions=["while STRICT_ORDER is False, list order and the value fields named in UNSTABLE_KEYS are not compared (they differ between two runs of the same command: property C05)"])
 
